@@ -286,6 +286,14 @@ def run(ctx):
     check_crypto_algs(ctx, 'N5')
     # ... and stays what was configured: no negotiation rearranges the shared proposal objects
     common.config_not_mutated(ctx, 'N5')
+    # "the peer's offer" is what was on the wire: a transform is identified by (type, id, key length), and the decoder reads each of
+    # them at its full width from the position the encoder writes it to (an identifier read through a narrower field aliases an
+    # unknown algorithm onto a configured one, and the intersection then "finds" a transform the peer never offered)
+    from . import c05
+    for title, cname, dfn, di, efn, ei, fields in c05.STRUCTS:
+        if cname in ('Transform', 'Proposal'):
+            c05.check_fixed(ctx, title, ctx.prog.cls('message.' + cname), dfn, di, efn, ei, fields, rule='N5')
+    c05.check_transform_attr(ctx, 'N5')
 
     # ---------------------------------------------------------------- N6
     fi = ctx.func(IKESA + '._process_create_child_sa_negotiation_req')
@@ -419,4 +427,4 @@ MANIFEST = {
     'design_ref': 'DESIGN.md 3/C11',
 }
 MANIFEST['note'] += (' Also decided here (necessary conditions shared between properties or added after the independent '
-                     'change rounds, DESIGN.md 8.7): configuration lists translated entry by entry (from C19), configuration objects and value classes never mutated in place.')
+                     'change rounds, DESIGN.md 8.7): configuration lists translated entry by entry (from C19), configuration objects and value classes never mutated in place, wire layout of Transform / Proposal / key-length attribute (from C05).')
